@@ -8,17 +8,29 @@ from twisted.web import client, error
 from twisted.web.http_headers import Headers
 
 HEADLINE = ("TwistedProps.C27.resolves_against_receiving_request_uri / at_most_limit_redirects / "
-            "method_preserved_or_switched_as_documented / sensitive_headers_only_to_original_origin")
+            "method_preserved_or_switched_as_documented / sensitive_headers_only_to_original_origin / interleaving_independent")
 RULE = ("redirect chains of 0..8 responses (codes 301/302/303/307/308 + non-redirect codes; 0, 1 or 2 Location values) over "
-        "origins {http,https} x {a,b,c.example} x {default,80,443,8080}; Location = absolute / scheme-relative / absolute-path / "
-        "relative-path (with '.', '..', empty segments) / query-only / fragment-only / empty; methods GET/HEAD/POST/PUT/get; "
-        "headers None / empty / sensitive+plain names in mixed case; configured sensitive names; limits 0..4 and 20; plus direct "
-        "_urljoin(base, ref) cases; distinct = (agent, method class, outcome, (code, Location kind, cross-origin?) of the first two hops, headers kind)")
+        "origins {http,https} x {a,b,c.example,sub.a,a.b,example + sub-domains / parent domains / prefix- and suffix-extensions of "
+        "the original host} x {default,80,443,8080}; Location = absolute / scheme-relative / absolute-path / "
+        "relative-path (with '.', '..', empty segments) / query-only / fragment-only / empty / (3 % of the responses, oracle-only, last "
+        "hop of its chain) absolute with a scheme that is not http(s): myapp, custom, git, app.v2; methods GET/HEAD/POST/PUT/get/OPTIONS/DELETE; "
+        "headers None / empty / sensitive+plain names in mixed case, one to three values each, incl. names with an irregular canonical "
+        "spelling (ETag, DNT, TE, P3P, X-XSS-Protection, Content-MD5); configured sensitive names (regular and irregular spellings) handed "
+        "over as list / tuple / iterator / generator / map / set / frozenset / dict keys; limits 0..4 and 20; a quarter of the cases put "
+        "2..3 such requests through ONE agent object (caller sometimes reusing one Headers object), issued one after the other against an "
+        "inner agent that answers at once, or all in flight against one that answers later with the answers delivered in a random "
+        "interleaving; plus direct _urljoin(base, ref) cases; distinct = (agent, method class, outcome, (code, Location kind, "
+        "cross-origin?) of the first two hops, headers kind, names kind; for multi: mode, #requests, shared headers, first two chains)")
 ASSUMES = [
-    "URIs are http/https with a non-empty host over [A-Za-z0-9._~%=&+-], optional decimal port, no userinfo, no ';' params, no ':' in path segments",
+    "request URIs are http/https with a non-empty host over [A-Za-z0-9._~%=&+-], optional decimal port, no userinfo, no ';' params, no ':' in path segments; "
+    "a Location may also be an absolute URI (with authority, no dot segments) of another scheme — such a hop is judged by the oracle only "
+    "(the model's schemes are http and https) and nothing is redirected further from it",
     "a Location carrying a scheme also carries an authority",
     "redirectLimit >= 0",
-    "the inner agent answers each request with a response (or not at all); inner-agent failures pass through untouched and are not modelled",
+    "the inner agent answers each request with a response (at once, later, or not at all); inner-agent failures pass through untouched and are not modelled",
+    "several requests through one agent: the harness attributes an inner request to the chain whose answer (or whose start) is being "
+    "delivered at that moment — callbacks of an already-fired or just-fired Deferred run synchronously",
+    "the model sees several values of one header as one opaque value token",
     "header names are compared after Headers' canonicalisation; the harness feeds the model lower-cased names",
 ]
 TRUSTED = [
@@ -32,24 +44,37 @@ MANIFEST = {
             "redirects are followed; 307/308 keep the method (and only GET/HEAD are followed), 303 (and 301/302 for the "
             "browser-like agent) switch to GET; a header with a sensitive name is only ever sent to the original request's "
             "origin, non-sensitive headers are never dropped; urljoin = an independent transcription of RFC 3986 §5.2 on "
-            "well-formed input (urljoin_eq_rfc3986); model tied to client.py by differential runs of whole chains "
-            "and of _urljoin alone.",
+            "well-formed input (urljoin_eq_rfc3986); all of it for every request made through a shared agent object under every "
+            "interleaving of the inner agent's answers (interleaving_independent, interleaved_requests_prefix, "
+            "interleaved_sensitive_headers_only_to_original_origin); model tied to client.py by differential runs of whole chains "
+            "(one per agent, and several per agent sequentially / interleaved) and of _urljoin alone.",
     "note": "trusts Lean kernel, the hand-written model of RedirectAgent/_urljoin (differentially tied), urllib.parse as reference resolver in the oracle",
     "technique": "Lean 4 proof (invariant over the response chain) + differential tie + independent oracle on the real agent",
     "design_ref": "DESIGN.md §7 C27",
 }
 
 SCHEMES = ["http", "https"]
-HOSTS = ["a", "b", "c.example"]
+# schemes urllib.parse does not list in `uses_relative`: an absolute Location with such a scheme (an app call-back, a
+# repository URL) is its own target (RFC 3986 §5.2.2 "if defined(R.scheme)"); the model has http/https only, so these
+# cases are oracle-only
+FOREIGN_SCHEMES = ["myapp", "custom", "git", "app.v2"]
+HOSTS = ["a", "b", "c.example", "a", "sub.a", "a.b", "example"]   # incl. hosts that are dot-suffixes / dot-prefixes of each other
 PORTS = [None, None, None, 80, 443, 8080]
 SEGS = ["x", "y", "r", "d.e", "..", ".", "", "x", "r", "%7e"]
-METHODS = ["GET", "GET", "GET", "HEAD", "POST", "PUT", "get"]
+METHODS = ["GET", "GET", "GET", "GET", "HEAD", "HEAD", "POST", "PUT", "get", "OPTIONS", "DELETE"]
 REDIRECTS = [301, 302, 303, 307, 308]
 DEFAULT_SENSITIVE = ["authorization", "cookie", "proxy-authorization"]          # the statement's list
 SENS_SPELL = ["Authorization", "authorization", "AUTHORIZATION", "Cookie", "cookie", "Proxy-Authorization",
               "proxy-authorization", "Cookie2", "wWw-auThentiCate"]
 PLAIN_SPELL = ["Accept", "user-agent", "X-Trace", "x-other", "Content-MD5", "ETag"]
 CUSTOM = ["X-Api-Key", "x-custom-SENSITIVE", "x-token"]
+# names whose canonical form is NOT the title-cased one (http_headers._NameEncoder._caseMappings) — as header names and,
+# below, as configured sensitive names
+ODD_CANON = ["ETag", "etag", "DNT", "dnt", "TE", "te", "P3P", "p3p", "X-XSS-Protection", "x-xss-protection", "content-md5"]
+NAME_SETS = [[], [], [], ["X-Api-Key"], ["x-custom-sensitive", "X-TOKEN"], ["etag"], ["DNT", "x-xss-protection"],
+             ["Content-MD5", "te"], ["P3P", "X-Api-Key"]]
+# how the configured names are handed to the agent (`sensitiveHeaderNames: Iterable[bytes]`)
+NAME_KINDS = ["list", "list", "tuple", "iter", "gen", "map", "set", "frozenset", "keys"]
 
 
 # ---------------------------------------------------------------------------------------- rendering
@@ -108,9 +133,24 @@ def R(path="", q="", f=""):
     return {"k": "R", "path": path, "q": q, "f": f}
 
 
-def run_case(agent="strict", limit=20, names=(), method="GET", uri=None, headers=None, resps=()):
-    return {"op": "run", "agent": agent, "limit": limit, "names": list(names), "method": method,
+def run_case(agent="strict", limit=20, names=(), method="GET", uri=None, headers=None, resps=(), nkind="list"):
+    return {"op": "run", "agent": agent, "limit": limit, "names": list(names), "nkind": nkind, "method": method,
             "uri": uri, "headers": headers, "resps": [{"code": c, "locs": list(l)} for c, l in resps]}
+
+
+def chain(method="GET", uri=None, headers=None, resps=(), share=False):
+    """one request of a `multi` case; share=True: the caller passes the very Headers object of the previous request"""
+    return {"method": method, "uri": uri, "headers": headers, "share": share,
+            "resps": [{"code": c, "locs": list(l)} for c, l in resps]}
+
+
+def multi_case(reqs, mode="async", sched=(), agent="strict", limit=20, names=(), nkind="list"):
+    """several requests through ONE agent object.  mode "sync": the inner agent answers at once, the requests are
+    issued one after the other in the order `sched` names them; mode "async": the inner agent answers later — `sched`
+    is a list of chain numbers, each entry starts that chain (first time) or delivers its next scripted response; what
+    is left after `sched` is started / delivered round-robin."""
+    return {"op": "multi", "agent": agent, "limit": limit, "names": list(names), "nkind": nkind, "mode": mode,
+            "sched": list(sched), "reqs": list(reqs)}
 
 
 # ---------------------------------------------------------------------------------------- cases
@@ -150,6 +190,40 @@ def corpus():
         run_case(uri=base, headers=auth, resps=[(302, [R("/login", "next=http://a.example/app/start")]), (302, [R("r")]), (200, [])]),
         run_case(agent="browser", uri=base, resps=[(301, [R("login", "return_to=https://a/")]), (200, [])]),
         run_case(uri=base, resps=[(307, [R("", "continue=http://b/x")]), (302, [R("", "", "http://b/x")]), (200, [])]),
+        # hosts that are a dot-suffix / dot-prefix of the original host are other origins (mutation audit m07)
+        run_case(uri=U("http", "a", None, "/x"), headers=auth, resps=[(302, [A("http", "sub.a", None, "/y")]), (200, [])]),
+        run_case(uri=U("https", "example", None, "/x"), headers=auth, resps=[(307, [N("c.example", None, "/y")]), (200, [])]),
+        run_case(uri=U("http", "a.b", None, "/x"), headers=auth, resps=[(301, [A("http", "a", None, "/")]), (302, [A("http", "b", None, "/")])]),
+        # configured names whose canonical spelling is not the title-cased one (m08); one-shot iterables of names (m09)
+        run_case(uri=base, names=["etag", "X-XSS-Protection"], headers=[["ETag", "s"], ["x-xss-protection", "t"], ["Accept", "v"]],
+                 resps=[(302, [A("http", "b", None, "/y")])]),
+        run_case(uri=base, names=["dnt", "TE", "content-md5", "p3p"], nkind="tuple",
+                 headers=[["DNT", "1"], ["te", "s"], ["Content-MD5", "m"], ["P3P", "p"]], resps=[(303, [N("b", None, "/y")])]),
+        run_case(uri=base, names=["x-token"], nkind="iter", headers=[["X-Token", "s"]], resps=[(302, [A("http", "b", None, "/y")])]),
+        run_case(uri=base, names=["x-token", "X-Api-Key"], nkind="gen", headers=[["X-Token", "s"], ["x-api-key", "k"]],
+                 resps=[(302, [R("z")]), (302, [A("https", "a", None, "/y")])]),
+        # headers with several values (m12)
+        run_case(uri=base, headers=[["Accept", "v1", "v2"], ["Cookie", "c1", "c2"], ["X-Trace", "t"]],
+                 resps=[(302, [A("http", "b", None, "/y")]), (302, [R("z")])]),
+        # one agent object, several requests: one after the other (m10) and interleaved (m11)
+        multi_case([chain(uri=U("http", "a", None, "/x"), headers=auth, resps=[(302, [A("http", "b", None, "/y")])]),
+                    chain(uri=U("http", "b", None, "/x"), headers=[["Authorization", "forb"]], resps=[(302, [A("http", "a", None, "/y")])])],
+                   mode="sync"),
+        multi_case([chain(uri=U("http", "a", None, "/x/1"), resps=[(302, [R("r")]), (302, [R("s")])]),
+                    chain(uri=U("http", "b", None, "/y/2"), resps=[(302, [R("t")])])],
+                   mode="async", sched=[0, 1, 0, 1, 0]),
+        multi_case([chain(uri=U("http", "a", None, "/x/1"), headers=auth, resps=[(302, [A("http", "b", None, "/p/q")]), (302, [R("s")])]),
+                    chain(method="POST", uri=U("https", "a", None, "/y/2"), headers=auth, share=True, resps=[(303, [R("t")]), (200, [])]),
+                    chain(method="HEAD", uri=U("http", "b", 8080, "/z"), headers=[["Cookie", "c"]], resps=[(307, [N("a", None, "/")])])],
+                   mode="async", sched=[0, 0, 1, 2, 1, 0, 2], limit=1, names=["X-Api-Key"], nkind="gen", agent="browser"),
+        # an absolute Location whose scheme is not http(s) is its own target (genuine defect found by the mutation audit:
+        # _urljoin returned b"#" / b"#frag" for every scheme urllib does not list in uses_relative)
+        run_case(uri=base, headers=auth, resps=[(302, [A("myapp", "cb", None, "", "code=1")]), (200, [])]),
+        run_case(agent="browser", method="POST", uri=U("https", "a", None, "/x", "", "bf"),
+                 resps=[(303, [R("/login")]), (302, [A("custom", "h", 8080, "/p", "", "frag")]), (404, [])]),
+        {"op": "join", "base": U("http", "a", None, "/x/y"), "ref": A("custom", "h", None, "/p", "", "frag")},
+        {"op": "join", "base": U("http", "a", None, "/x/y", "", "bf"), "ref": A("git", "h", None, "/r.git")},
+        {"op": "join", "base": U("http", "a", None, "/x/y", "", "bf"), "ref": A("myapp", "cb", None, "", "code=1")},
         {"op": "join", "base": U("http", "a", None, "/x/y"), "ref": R("/login", "next=http://a.example/app/start")},
         {"op": "join", "base": U("http", "a", None, "/x/y"), "ref": R("l", "u=//b/p", "//b")},
         {"op": "join", "base": U("http", "a", None, "/b/c/d", "q"), "ref": R("../g")},
@@ -196,15 +270,50 @@ def gen_uri(rng):
     return U(rng.choice(SCHEMES), rng.choice(HOSTS), rng.choice(PORTS), _path(rng, True), _q(rng), _f(rng))
 
 
+def _related_host(rng, h):
+    """a DIFFERENT host that a careless comparison takes for `h`: a sub-domain, the parent domain, a host `h` is a
+    prefix / suffix of"""
+    k = rng.randrange(5)
+    if k == 0:
+        return rng.choice(["sub.", "www.", "x."]) + h
+    if k == 1:
+        return h + rng.choice([".b", ".example", ".x"])
+    if k == 2 and "." in h:
+        return h.split(".", 1)[1]
+    if k == 3:
+        return h + rng.choice(["b", "0", "-x"])
+    return rng.choice(["x", "b", "not"]) + h
+
+
+def gen_foreign_ref(rng):
+    path = _path(rng, True)
+    if any(x in (".", "..") for x in path.split("/")):
+        path = "/cb"
+    return A(rng.choice(FOREIGN_SCHEMES), rng.choice(HOSTS + ["cb"]), rng.choice(PORTS), path, _q(rng), _f(rng))
+
+
+def _is_foreign(ref):
+    return ref["k"] == "A" and ref["s"] not in SCHEMES
+
+
+def _has_foreign(c):
+    if c["op"] == "join":
+        return _is_foreign(c["ref"])
+    chains = c["reqs"] if c["op"] == "multi" else [c]
+    return any(_is_foreign(l) for q in chains for r in q["resps"] for l in r["locs"])
+
+
 def gen_ref(rng, near=None):
     """`near`: a URI whose origin the reference should often share or almost share."""
     r = rng.random()
     if r < 0.22:
         if near is not None and rng.random() < 0.6:
             s, h, p = near["s"], near["h"], near["p"]
-            m = rng.randrange(5)
+            m = rng.randrange(6)
             if m == 0:
                 s = "https" if s == "http" else "http"
+            elif m == 5:
+                h = _related_host(rng, h)
             elif m == 1:
                 h = rng.choice(HOSTS)
             elif m == 2:
@@ -233,56 +342,130 @@ def gen_ref(rng, near=None):
     return R("", "", "")
 
 
-def gen_headers(rng):
+def _respell(rng, n):
+    return rng.choice([n, n.lower(), n.upper(), n.title()])
+
+
+def gen_headers(rng, configured=()):
+    """None / empty / 1..5 headers `[name, value, value, …]` (one value mostly, sometimes two or three); names from the
+    sensitive and the plain pools in mixed case, and — often — the configured sensitive names in another spelling"""
     r = rng.random()
     if r < 0.2:
         return None
     if r < 0.27:
         return []
     names, out = set(), []
-    pool = SENS_SPELL * 2 + PLAIN_SPELL + CUSTOM
-    for _ in range(rng.randint(1, 5)):
-        n = rng.choice(pool)
+    pool = SENS_SPELL * 2 + PLAIN_SPELL + CUSTOM + ODD_CANON
+    want = [rng.choice(pool) for _ in range(rng.randint(1, 5))]
+    if configured and rng.random() < 0.75:
+        want[rng.randrange(len(want))] = _respell(rng, rng.choice(list(configured)))
+    for n in want:
         if n.lower() in names:
             continue
         names.add(n.lower())
-        out.append([n, rng.choice(["v", "s3cr3t", "t0k"]) + str(len(out))])
+        vals = [rng.choice(["v", "s3cr3t", "t0k"]) + str(len(out))]
+        if rng.random() < 0.25:
+            vals += [rng.choice(["w", "2nd"]) + str(k) for k in range(rng.choice([1, 1, 2]))]
+        out.append([n] + vals)
     return out
 
 
-def gen_run(rng):
-    uri = gen_uri(rng)
+def gen_resps(rng, uri, others=()):
+    """a chain of responses to a request for `uri`; `others`: URIs of other requests through the same agent, whose
+    origins the Location values sometimes point at"""
     n = rng.choice([0, 1, 1, 2, 2, 2, 3, 3, 4, 5, 6, 8])
     resps = []
-    cur = uri
     for i in range(n):
         x = rng.random()
         if x < 0.86:
             code = rng.choice(REDIRECTS)
         else:
             code = rng.choice([200, 204, 300, 304, 305, 404, 500])
+        if rng.random() < 0.03:
+            # a Location with a scheme that is not http(s): the last thing this chain follows (what a relative reference
+            # means against such a base is urllib's business, not the agent's)
+            resps.append({"code": code, "locs": [gen_foreign_ref(rng)]})
+            resps.append({"code": rng.choice([200, 404]), "locs": []})
+            break
+        near = rng.choice(list(others)) if others and rng.random() < 0.45 else uri
         y = rng.random()
         if y < 0.05:
             locs = []
         elif y < 0.12:
-            locs = [gen_ref(rng, uri), gen_ref(rng, uri)]
+            locs = [gen_ref(rng, near), gen_ref(rng, near)]
         else:
-            locs = [gen_ref(rng, uri)]
+            locs = [gen_ref(rng, near)]
         resps.append({"code": code, "locs": locs})
-    method = rng.choice(METHODS)
-    if n >= 3 and rng.random() < 0.7:
-        method = rng.choice(["GET", "HEAD"])
-    return {"op": "run", "agent": rng.choice(["strict", "browser"]),
-            "limit": rng.choice([20, 20, 20, 20, 0, 1, 2, 3, 4]),
-            "names": rng.choice([[], [], ["X-Api-Key"], ["x-custom-sensitive", "X-TOKEN"]]),
-            "method": method, "uri": uri, "headers": gen_headers(rng), "resps": resps}
+    return resps
+
+
+def _gen_method(rng, nresps):
+    if nresps >= 3 and rng.random() < 0.7:
+        return rng.choice(["GET", "HEAD"])
+    return rng.choice(METHODS)
+
+
+def _gen_config(rng):
+    names = rng.choice(NAME_SETS)
+    return {"agent": rng.choice(["strict", "browser"]), "limit": rng.choice([20, 20, 20, 20, 0, 1, 2, 3, 4]),
+            "names": names, "nkind": rng.choice(NAME_KINDS) if names or rng.random() < 0.3 else "list"}
+
+
+def gen_run(rng):
+    uri = gen_uri(rng)
+    resps = gen_resps(rng, uri)
+    c = {"op": "run"}
+    c.update(_gen_config(rng))
+    c.update({"method": _gen_method(rng, len(resps)), "uri": uri, "headers": gen_headers(rng, c["names"]), "resps": resps})
+    return c
+
+
+def gen_multi(rng):
+    """2..3 requests through one agent object: issued one after the other against an inner agent that answers at once,
+    or all in flight against one that answers later, the answers delivered in a random interleaving"""
+    c = {"op": "multi"}
+    c.update(_gen_config(rng))
+    if rng.random() < 0.5:
+        c["limit"] = 20
+    n = rng.choice([2, 2, 2, 3])
+    uris = [gen_uri(rng) for _ in range(n)]
+    if rng.random() < 0.3:                       # same host, other scheme / port: origins that differ in one component
+        uris[1] = dict(uris[0], s=rng.choice(SCHEMES), p=rng.choice(PORTS))
+    reqs = []
+    for i, u in enumerate(uris):
+        resps = gen_resps(rng, u, [v for j, v in enumerate(uris) if j != i])
+        share = i > 0 and reqs[i - 1]["headers"] is not None and rng.random() < 0.3
+        headers = reqs[i - 1]["headers"] if share else gen_headers(rng, c["names"])
+        reqs.append({"method": _gen_method(rng, len(resps)), "uri": u, "headers": headers, "share": share, "resps": resps})
+    if rng.random() < 0.3:
+        # crossed: every request carries a credential and is first redirected to the exact origin of ANOTHER request of
+        # this agent (what an agent that remembers an origin / headers / a base URI across requests gets wrong)
+        for i, q in enumerate(reqs):
+            o = uris[(i + rng.randrange(1, n)) % n]
+            hop = {"code": rng.choice([301, 302, 303, 307]), "locs": [A(o["s"], o["h"], o["p"], _path(rng, True), _q(rng), _f(rng))]}
+            q["resps"] = [hop] + q["resps"][:6]
+            q["method"] = rng.choice(["GET", "GET", "HEAD"])
+            if not q["share"]:
+                hs = [h for h in (q["headers"] or []) if h[0].lower() not in DEFAULT_SENSITIVE]
+                q["headers"] = hs + [[rng.choice(["Authorization", "cookie", "Proxy-Authorization"]), "cred%d" % i]]
+        for i, q in enumerate(reqs):
+            if q["share"]:
+                q["headers"] = reqs[i - 1]["headers"]
+    c["mode"] = rng.choice(["sync", "async", "async"])
+    total = sum(len(r["resps"]) + 1 for r in reqs)
+    c["sched"] = [rng.randrange(n) for _ in range(rng.randint(0, total + 2))]
+    c["reqs"] = reqs
+    return c
 
 
 def generate(rng, tier):
     n = 2500 if tier == "quick" else 60000
     for i in range(n):
-        if rng.random() < 0.3:
-            yield {"op": "join", "base": gen_uri(rng), "ref": gen_ref(rng)}
+        x = rng.random()
+        if x < 0.2:
+            yield {"op": "join", "base": gen_uri(rng), "ref": gen_foreign_ref(rng) if rng.random() < 0.06 else gen_ref(rng)}
+        elif x < 0.45:
+            yield gen_multi(rng)
         else:
             yield gen_run(rng)
 
@@ -310,16 +493,27 @@ def _hdr_tok(headers):
         return "-"
     if not headers:
         return "."
-    return ",".join(n.lower() + "=" + v for n, v in headers)
+    return ",".join(h[0].lower() + "=" + "+".join(h[1:]) for h in headers)      # the value list is one opaque token
+
+
+def _chain_toks(q):
+    resps = ["^".join([str(r["code"])] + [ref_tok(l) for l in r["locs"]]) for r in q["resps"]]
+    return [q["method"], uri_tok(q["uri"]), _hdr_tok(q["headers"])] + resps
 
 
 def model_line(c):
+    if _has_foreign(c):
+        return None                      # oracle-only: the model's schemes are http and https
     if c["op"] == "join":
         return "join " + uri_tok(c["base"]) + " " + ref_tok(c["ref"])
     names = ",".join(n.lower() for n in c["names"]) or "-"
-    resps = " ".join("^".join([str(r["code"])] + [ref_tok(l) for l in r["locs"]]) for r in c["resps"])
-    return " ".join(x for x in ["run", c["agent"], str(c["limit"]), names, c["method"], uri_tok(c["uri"]),
-                                _hdr_tok(c["headers"]), resps] if x)
+    if c["op"] == "multi":
+        # the schedule (and sync / async) is NOT given to the model: TwistedProps.C27.interleaving_independent
+        toks = []
+        for i, q in enumerate(c["reqs"]):
+            toks += (["/"] if i else []) + _chain_toks(q)
+        return " ".join(["multi", c["agent"], str(c["limit"]), names] + toks)
+    return " ".join(["run", c["agent"], str(c["limit"]), names] + _chain_toks(c))
 
 
 # ---------------------------------------------------------------------------------------- implementation side
@@ -339,37 +533,145 @@ class _FakeAgent:
         return defer.Deferred()
 
 
-def _execute(c):
-    responses = []
-    for r in c["resps"]:
+def _names_arg(c):
+    """the `sensitiveHeaderNames` argument in the shape the case asks for (`Iterable[bytes]`)"""
+    bs = [n.encode("ascii") for n in c["names"]]
+    k = c.get("nkind", "list")
+    if k == "list":
+        return bs
+    if k == "tuple":
+        return tuple(bs)
+    if k == "iter":
+        return iter(bs)
+    if k == "gen":
+        return (b for b in bs)
+    if k == "map":
+        return map(bytes, bs)
+    if k == "set":
+        return set(bs)
+    if k == "frozenset":
+        return frozenset(bs)
+    if k == "keys":
+        return dict.fromkeys(bs).keys()
+    raise ValueError(k)
+
+
+def _make_agent(c, inner):
+    cls = client.RedirectAgent if c["agent"] == "strict" else client.BrowserLikeRedirectAgent
+    return cls(inner, c["limit"], _names_arg(c))
+
+
+def _responses(resps):
+    out = []
+    for r in resps:
         h = Headers()
         for l in r["locs"]:
             h.addRawHeader(b"location", ref_text(l).encode("ascii"))
-        responses.append(client.Response((b"HTTP", 1, 1), r["code"], b"X", h, None))
+        out.append(client.Response((b"HTTP", 1, 1), r["code"], b"X", h, None))
+    return out
+
+
+def _headers_obj(headers):
+    if headers is None:
+        return None
+    obj = Headers()
+    for h in headers:
+        obj.setRawHeaders(h[0].encode("ascii"), [v.encode("ascii") for v in h[1:]])
+    return obj
+
+
+def _outcome(box, responses):
+    if not box:
+        return "pending"
+    res = box[0]
+    if isinstance(res, client.Response):
+        return "response#%d" % [id(x) for x in responses].index(id(res))
+    if res.check(client.ResponseFailed):
+        err = res.value.reasons[0].value
+        where = err.uri if isinstance(err, error.RedirectWithNoLocation) else err.location
+        return "fail:%s:%d:%s" % (type(err).__name__, res.value.response.code, where.decode("ascii"))
+    return "fail:" + res.type.__name__
+
+
+def _execute(c):
+    responses = _responses(c["resps"])
     inner = _FakeAgent(responses)
-    cls = client.RedirectAgent if c["agent"] == "strict" else client.BrowserLikeRedirectAgent
-    agent = cls(inner, c["limit"], [n.encode("ascii") for n in c["names"]])
-    headers = None
-    if c["headers"] is not None:
-        headers = Headers()
-        for n, v in c["headers"]:
-            headers.setRawHeaders(n.encode("ascii"), [v.encode("ascii")])
-    d = agent.request(c["method"].encode("ascii"), uri_text(c["uri"]).encode("ascii"), headers)
+    agent = _make_agent(c, inner)
+    d = agent.request(c["method"].encode("ascii"), uri_text(c["uri"]).encode("ascii"), _headers_obj(c["headers"]))
     box = []
     d.addBoth(box.append)
-    if not box:
-        outcome = "pending"
-    else:
-        res = box[0]
-        if isinstance(res, client.Response):
-            outcome = "response#%d" % [id(x) for x in responses].index(id(res))
-        elif res.check(client.ResponseFailed):
-            err = res.value.reasons[0].value
-            where = err.uri if isinstance(err, error.RedirectWithNoLocation) else err.location
-            outcome = "fail:%s:%d:%s" % (type(err).__name__, res.value.response.code, where.decode("ascii"))
-        else:
-            outcome = "fail:" + res.type.__name__
-    return inner.requests, outcome
+    return inner.requests, _outcome(box, responses)
+
+
+class _SchedAgent:
+    """Inner agent shared by several chains.  Every request it receives is attributed to the chain the harness is
+    driving at that moment (Deferred callbacks run synchronously inside `start` / `deliver`).  sync: answers at once
+    with the chain's next scripted response; async: hands out an unfired Deferred that `deliver` fires later."""
+
+    def __init__(self, scripts, sync):
+        self.scripts = [list(x) for x in scripts]
+        self.requests = [[] for _ in scripts]
+        self.waiting = [None] * len(scripts)
+        self.sync = sync
+        self.cur = None
+
+    def request(self, method, uri, headers=None, bodyProducer=None):
+        i = self.cur
+        hs = None if headers is None else [(n, list(v)) for n, v in headers.getAllRawHeaders()]
+        self.requests[i].append((method, uri, hs))
+        if self.sync:
+            if self.scripts[i]:
+                return defer.succeed(self.scripts[i].pop(0))
+            return defer.Deferred()
+        d = defer.Deferred()
+        self.waiting[i] = d
+        return d
+
+    def deliver(self, i):
+        d = self.waiting[i]
+        if d is None or not self.scripts[i]:
+            return False
+        self.waiting[i] = None
+        self.cur = i
+        d.callback(self.scripts[i].pop(0))
+        return True
+
+
+def _execute_multi(c):
+    reqs = c["reqs"]
+    n = len(reqs)
+    responses = [_responses(q["resps"]) for q in reqs]
+    inner = _SchedAgent(responses, c["mode"] == "sync")
+    agent = _make_agent(c, inner)
+    hobjs = []
+    for i, q in enumerate(reqs):
+        hobjs.append(hobjs[i - 1] if (q.get("share") and i > 0 and hobjs[i - 1] is not None) else _headers_obj(q["headers"]))
+    boxes = [[] for _ in reqs]
+    started = [False] * n
+
+    def start(i):
+        started[i] = True
+        inner.cur = i
+        q = reqs[i]
+        agent.request(q["method"].encode("ascii"), uri_text(q["uri"]).encode("ascii"), hobjs[i]).addBoth(boxes[i].append)
+
+    for i in c["sched"]:
+        if not 0 <= i < n:
+            continue
+        if not started[i]:
+            start(i)
+        elif not inner.sync:
+            inner.deliver(i)
+    for i in range(n):
+        if not started[i]:
+            start(i)
+    progress = not inner.sync
+    while progress:
+        progress = False
+        for i in range(n):
+            if inner.deliver(i):
+                progress = True
+    return [(inner.requests[i], _outcome(boxes[i], responses[i])) for i in range(n)]
 
 
 def _show_headers(hs):
@@ -377,14 +679,19 @@ def _show_headers(hs):
         return "-"
     if not hs:
         return "."
-    return ",".join(n.decode("ascii").lower() + "=" + b"/".join(v).decode("ascii") for n, v in sorted(hs, key=lambda p: p[0].lower()))
+    return ",".join(n.decode("ascii").lower() + "=" + b"+".join(v).decode("ascii") for n, v in sorted(hs, key=lambda p: p[0].lower()))
+
+
+def _show_chain(reqs, outcome):
+    return ";".join("%s %s %s" % (m.decode("ascii"), u.decode("ascii"), _show_headers(h)) for m, u, h in reqs) + " => " + outcome
 
 
 def run_impl(c):
     if c["op"] == "join":
         return client._urljoin(uri_text(c["base"]).encode("ascii"), ref_text(c["ref"]).encode("ascii")).decode("ascii")
-    reqs, outcome = _execute(c)
-    return ";".join("%s %s %s" % (m.decode("ascii"), u.decode("ascii"), _show_headers(h)) for m, u, h in reqs) + " => " + outcome
+    if c["op"] == "multi":
+        return " || ".join(_show_chain(reqs, outcome) for reqs, outcome in _execute_multi(c))
+    return _show_chain(*_execute(c))
 
 
 # ---------------------------------------------------------------------------------------- the property, on the implementation
@@ -501,7 +808,22 @@ def oracle(c, out):
         return None
     if out.startswith("!"):
         return {"key": "raises", "detail": out}
-    reqs, outcome = _execute(c)
+    if c["op"] == "multi":
+        # the statement is about every request made through the agent: each chain is judged on its own, against ITS
+        # original request, whatever else the agent object has done before or is doing at the same time
+        for i, (reqs, outcome) in enumerate(_execute_multi(c)):
+            q = dict(c["reqs"][i], agent=c["agent"], limit=c["limit"], names=c["names"])
+            bad = _judge(q, reqs)
+            if bad:
+                return {"key": bad["key"], "detail": "request %d of %d through one agent (%s): %s" % (
+                    i + 1, len(c["reqs"]), c["mode"], bad["detail"])}
+        return None
+    return _judge(c, _execute(c)[0])
+
+
+def _judge(c, reqs):
+    """the property on ONE chain: `c` has agent / limit / names / method / uri / headers / resps, `reqs` are the requests
+    the inner agent received for it"""
     reqs = [(m.decode("ascii"), u.decode("ascii"), h) for m, u, h in reqs]
     orig = uri_text(c["uri"])
     if not reqs or reqs[0][:2] != (c["method"], orig):
@@ -545,13 +867,24 @@ def oracle(c, out):
             leaked = sorted(n.decode("ascii") for n, _ in hs if n.decode("ascii").lower() in sensitive)
             if leaked:
                 return {"key": "sensitive-leak", "detail": f"hop {k}: {leaked} sent to {u!r}, original origin {orig!r}"}
-        # headers that are not sensitive are the caller's and must survive
+        # a credential the caller did not give to THIS request must not appear on it at all
+        given = {h[0].lower() for h in (c["headers"] or [])}
+        alien = sorted(n.decode("ascii") for n, _ in (hs or []) if n.decode("ascii").lower() in sensitive
+                       and n.decode("ascii").lower() not in given)
+        if alien:
+            return {"key": "sensitive-foreign", "detail": f"hop {k}: {alien} sent to {u!r} but the caller's headers were {sorted(given)}"}
+        # headers that are not sensitive are the caller's and must survive, with all their values
         if c["headers"] is not None:
-            want = {n.lower() for n, _ in c["headers"] if n.lower() not in sensitive
-                    and n.lower() not in ("cookie2", "www-authenticate")}
-            have = {n.decode("ascii").lower() for n, _ in (hs or [])}
-            if not want <= have:
-                return {"key": "plain-header-dropped", "detail": f"hop {k}: {sorted(want - have)} missing on the request to {u!r}"}
+            want = {h[0].lower(): list(h[1:]) for h in c["headers"] if h[0].lower() not in sensitive
+                    and h[0].lower() not in ("cookie2", "www-authenticate")}
+            have = {n.decode("ascii").lower(): [x.decode("ascii") for x in v] for n, v in (hs or [])}
+            missing = sorted(n for n in want if n not in have)
+            if missing:
+                return {"key": "plain-header-dropped", "detail": f"hop {k}: {missing} missing on the request to {u!r}"}
+            changed = sorted(n for n in want if have[n] != want[n])
+            if changed:
+                return {"key": "plain-header-values", "detail": f"hop {k}: {changed[0]} sent to {u!r} with values {have[changed[0]]}, "
+                                                                f"the caller gave {want[changed[0]]}"}
     return None
 
 
@@ -559,7 +892,7 @@ def oracle(c, out):
 
 def _refkind(r):
     if r["k"] != "R":
-        return r["k"]
+        return "Af" if _is_foreign(r) else r["k"]
     if r["path"] == "":
         return "Rq" if r["q"] else ("Rf" if r["f"] else "R0")
     return "Rabs" if r["path"].startswith("/") else ("Rdot" if any(s in (".", "..") for s in r["path"].split("/")) else "Rrel")
@@ -570,6 +903,25 @@ def tag(c, out):
         bp = c["base"]["path"]
         return "join:%s:%s:%s%s" % (_refkind(c["ref"]), "e" if bp == "" else ("d" if bp.endswith("/") else "f"),
                                     "q" if c["base"]["q"] else "", "F" if c["base"]["f"] else "")
+    if c["op"] == "multi":
+        outs = out.split(" || ")
+        if len(outs) != len(c["reqs"]):
+            return "multi:" + out[:20]
+        sub = [_tag_chain(dict(q, agent=c["agent"]), o).split(":", 2)[2] for q, o in zip(c["reqs"][:2], outs)]
+        origins = {_origin(uri_text(q["uri"])) for q in c["reqs"]}
+        return "multi:%s:%d%s%s:%s:%s" % (c["mode"], len(c["reqs"]), "o" if len(origins) > 1 else "=",
+                                          "S" if any(q.get("share") for q in c["reqs"]) else "", c.get("nkind", "list"), "|".join(sub))
+    return _tag_chain(c, out) + _tag_cfg(c)
+
+
+def _tag_cfg(c):
+    k = c.get("nkind", "list")
+    odd = any(n.lower() in ("etag", "dnt", "te", "p3p", "x-xss-protection", "content-md5") for n in c["names"])
+    multi = any(len(h) > 2 for h in (c["headers"] or []))
+    return (":" + k if k != "list" else "") + (":odd" if odd else "") + (":mv" if multi else "")
+
+
+def _tag_chain(c, out):
     outcome = out.rsplit(" => ", 1)[-1].split(":")
     o = outcome[0].split("#")[0] + (":" + outcome[1] if len(outcome) > 1 else "")
     hops = []
@@ -581,20 +933,55 @@ def tag(c, out):
             x = "=" if _origin(urls[k + 1]) == orig else "x"
         hops.append("%d%s%s" % (r["code"], _refkind(r["locs"][0]) if r["locs"] else "none", x))
     h = "none" if c["headers"] is None else ("empty" if not c["headers"] else
-                                             ("sens" if any(n.lower() in DEFAULT_SENSITIVE for n, _ in c["headers"]) else "plain"))
+                                             ("sens" if any(h[0].lower() in DEFAULT_SENSITIVE for h in c["headers"]) else "plain"))
     m = c["method"] if c["method"] in ("GET", "HEAD") else "other"
     return "run:%s:%s:%s:%s:%s" % (c["agent"][0], m, o, "/".join(hops), h)
 
 
 def shrink(c):
+    if c["op"] == "multi":
+        qs = c["reqs"]
+        if len(qs) > 1:
+            for i in range(len(qs) - 1, -1, -1):
+                rest = [dict(q, share=False) if (j == i + 1) else q for j, q in enumerate(qs) if j != i]
+                sched = [(k if k < i else k - 1) for k in c["sched"] if k != i]
+                yield dict(c, reqs=rest, sched=sched)
+        for i in range(len(c["sched"]) - 1, -1, -1):
+            yield dict(c, sched=c["sched"][:i] + c["sched"][i + 1:])
+        if c.get("nkind", "list") != "list":
+            yield dict(c, nkind="list")
+        for i, q in enumerate(qs):
+            for q2 in _shrink_chain(dict(q, names=c["names"], limit=c["limit"])):
+                if q2.get("names") != c["names"] or q2.get("limit") != c["limit"]:
+                    continue
+                q2 = {k: v for k, v in q2.items() if k not in ("names", "limit")}
+                if q2["headers"] != q["headers"]:
+                    q2["share"] = False
+                    if i + 1 < len(qs) and qs[i + 1].get("share"):
+                        continue
+                yield dict(c, reqs=qs[:i] + [q2] + qs[i + 1:])
+        if c["names"]:
+            yield dict(c, names=[])
+        if c["limit"] != 20:
+            yield dict(c, limit=20)
+        return
     if c["op"] != "run":
         return
+    if c.get("nkind", "list") != "list":
+        yield dict(c, nkind="list")
+    yield from _shrink_chain(c)
+
+
+def _shrink_chain(c):
     rs = c["resps"]
     for i in range(len(rs) - 1, -1, -1):
         yield dict(c, resps=rs[:i] + rs[i + 1:])
     if c["headers"]:
         for i in range(len(c["headers"])):
             yield dict(c, headers=c["headers"][:i] + c["headers"][i + 1:])
+        for i, h in enumerate(c["headers"]):
+            if len(h) > 2:
+                yield dict(c, headers=c["headers"][:i] + [h[:-1]] + c["headers"][i + 1:])
     if c["names"]:
         yield dict(c, names=[])
     if c["limit"] != 20:
